@@ -14,9 +14,14 @@ Record brd := { br_buf : bytes; br_src : bytes; br_cap : N; br_err : bool }.
 Definition br_new (payload : bytes) (size : N) : brd :=
   {| br_buf := []; br_src := payload; br_cap := N.max size 16; br_err := false |}.
 
+(* copy(p, l) with len(p) = n, and what is left of l; n may be a length field of tens of MiB, so
+   it is clamped before it becomes a unary number *)
+Definition takeN (n : N) (l : bytes) : bytes := take (N.min n (len l)) l.
+Definition dropN (n : N) (l : bytes) : bytes := drop (N.min n (len l)) l.
+
 (* bytes.Buffer.Read into a slice of n bytes: (data, rest, io.EOF?) *)
 Definition src_read (n : N) (s : bytes) : bytes * bytes * bool :=
-  if len s =? 0 then ([], s, negb (n =? 0)) else (take n s, drop n s, false).
+  if len s =? 0 then ([], s, negb (n =? 0)) else (takeN n s, dropN n s, false).
 
 (* fill: slide the window to the start of b.buf, panic when the buffer is full, one underlying
    Read into b.buf[b.w:] (a non-empty slice, so bytes.Buffer returns data or io.EOF at once) *)
@@ -102,10 +107,10 @@ Definition br_read (n : N) (b : brd) : res (bytes * bool * brd) :=
       if len d =? 0 then
         Ok ([], eof, {| br_buf := []; br_src := s'; br_cap := br_cap b; br_err := false |})
       else
-        Ok (take n d, false, {| br_buf := drop n d; br_src := s'; br_cap := br_cap b; br_err := eof |})
+        Ok (takeN n d, false, {| br_buf := dropN n d; br_src := s'; br_cap := br_cap b; br_err := eof |})
   else
-    Ok (take n (br_buf b), false,
-        {| br_buf := drop n (br_buf b); br_src := br_src b; br_cap := br_cap b; br_err := br_err b |}).
+    Ok (takeN n (br_buf b), false,
+        {| br_buf := dropN n (br_buf b); br_src := br_src b; br_cap := br_cap b; br_err := br_err b |}).
 
 (* Buffered() *)
 Definition br_buffered (b : brd) : N := len (br_buf b).
